@@ -60,7 +60,7 @@ def _bcast_partner(rng, xs, P, D, rel):
 def cases(tier, seed):
     out = []
     Ds = [1, 2, 3, 4, 6] if tier == 'quick' else [1, 2, 3, 4, 5, 6, 8]
-    reps = 1 if tier == 'quick' else 40
+    reps = 1 if tier == 'quick' else 300
     for op in OPS:
         for form in ('binary', 'reflected', 'inplace'):
             for kind in ['utpm'] + SCALAR_KINDS + ARRAY_KINDS:
@@ -239,10 +239,12 @@ def run_case(ctx, case):
     label = '%s:%s' % (op, form)
     mech = '%s:%s:%s:%s' % (op, form, kind, rel)
     try:
+        named = {'add': UTPM.add, 'sub': UTPM.sub, 'mul': [UTPM.mul, UTPM.multiply][D % 2], 'div': UTPM.div}
+        use_named = (case_seed('C02', op, form, kind, rel, D, P, xs) % 4 == 0)       # the classmethod spelling of the operator
         if form == 'binary':
-            r = OPS[op](x, other)
+            r = named[op](x, other) if use_named else OPS[op](x, other)
         elif form == 'reflected':
-            r = OPS[op](other, x)
+            r = named[op](other, x) if use_named else OPS[op](other, x)
         else:
             r = IOPS[op](x, other)
     except Exception as e:
